@@ -433,6 +433,20 @@ func checkC14(c *Ctx, r *Report) {
 		lockLeakRule(c, r, li, "R14.6", name)
 	}
 	r.floor("R14.6", 4)
+	// R14.8: the client's mutex protects the client's own fields only; package-level state written
+	// from any of its methods would be shared by all goroutines and all clients without that lock
+	{
+		var roots []*ssa.Function
+		for _, name := range []string{"Client", "SerialClient"} {
+			for _, m := range methodsOf(c, "", name) {
+				if m.Object() != nil && m.Object().Exported() {
+					roots = append(roots, m)
+				}
+			}
+		}
+		sharedStateRule(c, r, "R14.8", "modbus client methods", "the exported methods of both clients", roots)
+		r.floor("R14.8", 30)
+	}
 	// R14.7: the errors Do hands out include pointers to package-level values (the not-connected and
 	// too-long sentinels) that every goroutine shares: nothing may write to a ClientError after its
 	// construction (a caching Error() would race outside the client's mutex)
